@@ -173,14 +173,18 @@ class Env:
     """Everything a fixture run needs."""
 
     def __init__(self, ctx):
+        import threading
         self.ctx = ctx
         self.fx = ctx.tmp("fixture")
         write_fixture(self.fx)
         self.n = 0
+        self.lock = threading.Lock()
 
     def run(self, binary, patterns, fmt="text", gomaxprocs=None, yseed=None, trace=None, timeout=300):
-        self.n += 1
-        cache = os.path.join(self.ctx.scratch, "sc-cache", "c%d" % self.n)
+        with self.lock:
+            self.n += 1
+            n = self.n
+        cache = os.path.join(self.ctx.scratch, "sc-cache", "c%d" % n)
         os.makedirs(cache, exist_ok=True)
         extra = {"STATICCHECK_CACHE": cache}
         if gomaxprocs:
@@ -226,17 +230,24 @@ def expected_for(baseline_out, fmt, patterns):
 # ---------------------------------------------------------------------------------------------------
 
 
+def cap():
+    """VERIF_CAP=<n> caps the case counts of the thorough tier (to exercise its code path cheaply)"""
+    try:
+        return int(os.environ.get("VERIF_CAP", "0"))
+    except ValueError:
+        return 0
+
+
 def tlc_exhaustive(ctx):
     fams = ["P3", "A3", "Xq", "LiveQ"] if ctx.quick else ["P3", "A3", "X", "X4", "P4", "A4", "Live"]
+    if not ctx.quick and cap():
+        fams = ["A3", "X4", "LiveQ"]
     w = 4 if ctx.quick else 6
 
     def one(f):
         return f, vlib.run_tlc(ctx, "MCRunner", "MCRunner_%s.cfg" % f, workers=w, timeout=3000 if ctx.quick else 7200,
                                coverage=False, keep_cases=False)
-    if ctx.quick:
-        res = vlib.pmap(one, fams, workers=4)
-    else:
-        res = vlib.pmap(one, fams, workers=2)
+    res = vlib.pmap(one, fams, workers=2)
     out = {}
     for f, r in res:
         vlib.tlc_require_ok(r, "Runner.tla family %s" % f)
@@ -366,8 +377,9 @@ def judge_traces(ctx, traces, big, stats, what):
 def negative_selftests(ctx, traces):
     """A corrupted log must be rejected by RunnerTrace and flagged by RunnerMon."""
     import copy
-    base = next((t for t in traces if len(t.strict) > 40 and len(t.graph["pkgs"]) >= 2 and t.complete
-                 and not t.graph["cfailed"]), None)
+    base = next((t for t in traces if len(t.strict) > 40 and t.complete and not t.graph["cfailed"] and not t.errors
+                 and any(t.graph["pdeps"][p] for p in t.graph["pkgs"])
+                 and any(e["ev"] == "release" for e in t.strict)), None)
     if base is None:
         raise Inconclusive("no trace suitable for the negative self-tests")
     # (a) strict: retarget one decrement
@@ -449,6 +461,8 @@ def fixture_oracle(ctx, env, sc, race_bin, stats):
                     perms.append(list(pm))
     if ctx.quick:
         sel = subsets + vlib.sample(ctx, perms, 10)
+    elif cap():
+        sel = subsets + vlib.sample(ctx, perms, cap())
     else:
         sel = subsets + perms
     for i, s in enumerate(sel):
@@ -555,7 +569,7 @@ def run(ctx):
 
     env = Env(ctx)
     base, tmo = fixture_oracle(ctx, env, sc, race_bin, stats)
-    htraces, hstats, chosen = harness_binding(ctx, helper, 24 if ctx.quick else 160,
+    htraces, hstats, chosen = harness_binding(ctx, helper, 24 if ctx.quick else (cap() or 160),
                                               [0, ctx.seed * 10 + 1] if ctx.quick else [0] + [ctx.seed * 10 + k for k in (1, 2, 3)])
     stats["harness"] = hstats
     judge_traces(ctx, htraces, False, stats, "harness")
